@@ -67,13 +67,38 @@ def main(argv):
         return 2
 
 
+def _descendants(root):
+    kids = {}
+    for d in os.listdir("/proc"):
+        if not d.isdigit():
+            continue
+        try:
+            with open(f"/proc/{d}/stat") as fh:
+                st = fh.read()
+            ppid = int(st[st.rindex(")") + 2:].split()[1])
+        except (OSError, ValueError, IndexError):
+            continue
+        kids.setdefault(ppid, []).append(int(d))
+    out, todo = [], [root]
+    while todo:
+        for c in kids.get(todo.pop(), []):
+            out.append(c)
+            todo.append(c)
+    return out
+
+
 def _cleanup_group():
-    """no worker process or TLC instance may outlive the check"""
-    try:
-        signal.signal(signal.SIGTERM, signal.SIG_IGN)
-        os.killpg(os.getpgrp(), signal.SIGTERM)
-    except Exception:
-        pass
+    """no worker process or TLC instance may outlive the check (only the
+    check's own descendants are touched: the caller's pipeline is not)"""
+    for sig in (signal.SIGTERM, signal.SIGKILL):
+        for pid in _descendants(os.getpid()):
+            try:
+                os.kill(pid, sig)
+            except OSError:
+                pass
+        if sig == signal.SIGTERM:
+            import time
+            time.sleep(.2)
 
 
 def _watchdog(seconds):
@@ -88,10 +113,6 @@ def _watchdog(seconds):
 
 
 if __name__ == "__main__":
-    try:
-        os.setpgrp()
-    except Exception:
-        pass
     _watchdog(int(os.environ.get("VERIF_TIMEOUT", "5400")))
     rc = 2
     try:
